@@ -14,6 +14,7 @@ import (
 	"io"
 	"net"
 	"net/http"
+	"reflect"
 	"regexp"
 	"strconv"
 	"strings"
@@ -28,7 +29,7 @@ type tuple struct {
 	Path    string // endpoint path
 	Hdr     string // value of X-Verif-K
 	Proto   string // requested subprotocol: graphql-transport-ws | graphql-ws | "" (auto)
-	Payload string // "p" member of the connection_init payload ("" = no payload)
+	Payload string // the connection_init payload as JSON ("" = no payload)
 }
 
 type sconn struct {
@@ -45,6 +46,7 @@ type sconn struct {
 	initSeen bool
 	initKey  int
 	acked    bool
+	muted    bool // stop answering pings
 	ids      map[int]string // subscriber -> wire id
 	rev      map[string]int
 	nsent    map[int]int
@@ -165,9 +167,24 @@ func (sv *server) matchReq(c *sconn) int {
 	return found
 }
 
-func (sv *server) matchInit(c *sconn, payload string) int {
+// samePayload compares two init payloads as JSON documents (42 and "42" differ, key order does not matter).
+func samePayload(want string, got []byte) bool {
+	if want == "" {
+		return len(got) == 0 || string(got) == "null"
+	}
+	if len(got) == 0 {
+		return false
+	}
+	var a, b any
+	if json.Unmarshal([]byte(want), &a) != nil || json.Unmarshal(got, &b) != nil {
+		return false
+	}
+	return reflect.DeepEqual(a, b)
+}
+
+func (sv *server) matchInit(c *sconn, payload []byte) int {
 	for i, t := range sv.tuples {
-		if t.Path == c.path && t.Hdr == c.hdr && sameOffer(c.offered, t.Proto) && t.Payload == payload {
+		if t.Path == c.path && t.Hdr == c.hdr && sameOffer(c.offered, t.Proto) && samePayload(t.Payload, payload) {
 			return i + 1
 		}
 	}
@@ -284,13 +301,7 @@ func (sv *server) handleFrame(c *sconn, data []byte) {
 	}
 	switch m.Type {
 	case "connection_init":
-		var p struct {
-			P string `json:"p"`
-		}
-		if len(m.Payload) > 0 {
-			json.Unmarshal(m.Payload, &p)
-		}
-		k := sv.matchInit(c, p.P)
+		k := sv.matchInit(c, m.Payload)
 		c.mu.Lock()
 		c.initSeen = true
 		c.initKey = k
@@ -316,7 +327,12 @@ func (sv *server) handleFrame(c *sconn, data []byte) {
 		c.mu.Unlock()
 		sv.rec.add(ev{"ev": "srv.recv", "c": c.n, "k": "stop", "s": s})
 	case "ping":
-		c.ws.Write(context.Background(), websocket.MessageText, []byte(`{"type":"pong"}`))
+		c.mu.Lock()
+		muted := c.muted
+		c.mu.Unlock()
+		if !muted {
+			c.ws.Write(context.Background(), websocket.MessageText, []byte(`{"type":"pong"}`))
+		}
 	case "pong":
 	default:
 		sv.rec.add(ev{"ev": "srv.recv", "c": c.n, "k": "other:" + m.Type, "s": 0})
@@ -331,8 +347,20 @@ func (c *sconn) write(b []byte) error {
 
 func (c *sconn) ack() error { return c.write([]byte(`{"type":"connection_ack"}`)) }
 
+// payload is the GraphQL result of a next frame in variant v: "d" data only, "de" data:null + errors,
+// "dx" data + extensions.  Every part names the subscription and the frame it belongs to.
+func payload(v string, s, n int) string {
+	switch v {
+	case "de":
+		return fmt.Sprintf(`{"data":null,"errors":[{"message":"e","extensions":{"s":%d,"n":%d}}]}`, s, n)
+	case "dx":
+		return fmt.Sprintf(`{"data":{"s":%d,"n":%d},"extensions":{"s":%d,"n":%d}}`, s, n, s, n)
+	}
+	return fmt.Sprintf(`{"data":{"s":%d,"n":%d}}`, s, n)
+}
+
 // frame builds the wire form of one scripted frame for subscriber s on this connection.
-func (c *sconn) frame(s int, kind string, n int) ([]byte, bool) {
+func (c *sconn) frame(s int, kind, v string, n int) ([]byte, bool) {
 	c.mu.Lock()
 	id, ok := c.ids[s]
 	legacy := c.proto == "graphql-ws"
@@ -347,7 +375,7 @@ func (c *sconn) frame(s int, kind string, n int) ([]byte, bool) {
 		if legacy {
 			t = "data"
 		}
-		return []byte(fmt.Sprintf(`{"id":%s,"type":"%s","payload":{"data":{"s":%d,"n":%d}}}`, idj, t, s, n)), true
+		return []byte(fmt.Sprintf(`{"id":%s,"type":"%s","payload":%s}`, idj, t, payload(v, s, n))), true
 	case "error":
 		if legacy {
 			return []byte(fmt.Sprintf(`{"id":%s,"type":"error","payload":{"message":"e","extensions":{"s":%d,"n":%d}}}`, idj, s, n)), true
@@ -378,7 +406,7 @@ func (sv *server) serveSSE(w http.ResponseWriter, r *http.Request, c *sconn) {
 	}
 }
 
-func (c *sconn) sseEvent(kind string, s, n int) error {
+func (c *sconn) sseEvent(kind, v string, s, n int) error {
 	c.mu.Lock()
 	w := c.sseW
 	c.mu.Unlock()
@@ -388,7 +416,7 @@ func (c *sconn) sseEvent(kind string, s, n int) error {
 	var b string
 	switch kind {
 	case "next":
-		b = fmt.Sprintf("event: next\ndata: {\"data\":{\"s\":%d,\"n\":%d}}\n\n", s, n)
+		b = "event: next\ndata: " + payload(v, s, n) + "\n\n"
 	case "error":
 		b = fmt.Sprintf("event: error\ndata: [{\"message\":\"e\",\"extensions\":{\"s\":%d,\"n\":%d}}]\n\n", s, n)
 	case "complete":
